@@ -53,6 +53,7 @@ mutual
          | _ => false)
     | .obj _ f, b => !f.frozen && (match b with | .any bf => bf.noneable | .obj .. => true | _ => false)
     | .union _ _, _ => false
+    | .callable _, _ => false
   termination_by structural a => a
   def zipExtOk : List Spec → List Spec → Bool
     | [], _ => true
@@ -585,6 +586,7 @@ mutual
     | dict fields f => exact extend_dict env fields f base c' hok h
     | obj c f => exact extend_obj env c f base c' hok h
     | union cands f => simp [ExtOk] at hok
+    | callable f => simp [ExtOk] at hok
     | list e mn mx f =>
       simp only [ExtOk, Bool.and_eq_true, Bool.not_eq_true'] at hok
       obtain ⟨hcf, hb⟩ := hok
